@@ -10,7 +10,7 @@ from pbt.core import Result, pf_tol, silence, exc_sig
 ID = "C13"
 LEVEL = "exploration"
 EXAMPLES = {"quick": 480, "thorough": 9000}
-SHRINK_S = {"quick": 25, "thorough": 90}
+SHRINK_S = {"quick": 12, "thorough": 60}
 RULE = ("Hypothesis draws a 2-3 voltage level network recipe (<= 9 buses, 2W and 3W transformers) and 1-5 controllers: "
         "DiscreteTapControl (band given or from_tap_step_percent, band 0.3-3 tap steps wide) and ContinuousTapControl on 2W/3W "
         "transformers whose tap changer is redrawn (tap side hv/mv/lv, controlled side hv/mv/lv, range up to +-9, random start "
